@@ -3,11 +3,21 @@
 import json, os, subprocess
 V = os.path.dirname(os.path.dirname(os.path.abspath(__file__)))
 TECH = "Rocq (Coq 8.16) theorems over an executable Gallina model + extracted-model/implementation correspondence check"
+NOTE = ("Trusted: Coq 8.16.1 kernel; coq/model/SF.v as the IEEE-754 definition (validated bit-for-bit against Go/amd64 by the run); OCaml extraction "
+        "(ExtrOcamlBasic only) + ocaml/*.ml driver; Go harness with verif-tagged exports; python generators; hand-written model tied to /repo by the "
+        "correspondence run and by coq/gen/*.v regenerated from /repo. ")
+def claim(text, ref, note=""):
+    return dict(text=text, ref=ref, note=NOTE + note)
 CLAIMS = {
- "C08": dict(
-  text="Machine-checked theorems (coq/props/C08.v, no axioms) over the Gallina model of the number codecs and quantize: natural round trip/minimality/no over-read for all u<2^30 and all byte strings, 4-byte rounding spec for all 2^32 bit patterns, exactness + shortest form + re-encode stability of reals and coordinates for all float32, nearest-1/64 quantisation, SetNReg shortest-of-three; the model is tied to /repo by a bit-exact correspondence run (~290k numbers quick) through build-tag exports of the real codec functions. The zero-to-one 4-ulp bound is not a theorem (zto_*_partial) and is covered by the correspondence only.",
-  note="Trusted: Coq kernel; coq/model/SF.v as the IEEE-754 definition (validated bit-for-bit against Go/amd64 by this run); OCaml extraction (ExtrOcamlBasic only) and driver; Go harness + verif-tagged exports; python generators. No axioms.",
-  ref="§6 C08"),
+ "C02": claim("Theorems for every byte string: no panic / no fuel exhaustion (Done or a DecodeError), nothing delivered before the metadata is complete and Reset first, every call charged to its own consumed byte. prefix_monotone is not yet a theorem (checked by the correspondence on every truncation). Correspondence ~75k inputs through Decode (recorder, Renderer, Encoder), DecodeViewBox, Disassemble.", "§6 C02", "No axioms. Go loop termination is observed, not proved."),
+ "C08": claim("Theorems (no axioms) over the Gallina model of the number codecs and quantize: natural round trip / minimality / no over-read, 4-byte rounding spec for all 2^32 patterns, exactness + shortest form + re-encode stability of reals and coordinates, nearest-1/64 quantisation, SetNReg shortest-of-three; bit-exact correspondence (~290k numbers) through build-tag exports. The zero-to-one 4-ulp bound is not a theorem (zto_*_partial).", "§6 C08", "No axioms."),
+ "C09": claim("Theorems: all 256 one-byte colours match the specification table (kernel sweep, table regenerated from color.go), 2/3/4-byte tables, every colour (all RGBA incl. gradient encodings, palette, register, blend) round-trips through the form SetCReg chooses, truncation = error, blend formula / endpoints / premultiplication preserved, gradient packing round trip. palette_roundtrip for whole suggested palettes is pending (covered by the correspondence: ~125k colour cases).", "§6 C09", "No axioms."),
+ "C10": claim("Theorems: every Encoder API call refines one step of the 4-state protocol automaton, hence for every finite history Bytes errs iff the automaton rejects; the first error is sticky until Reset (with the reachable-state invariant); the zero value is observationally a Reset with default metadata; Bytes is idempotent. Correspondence: exhaustive histories to depth 4 over 14 call classes + long random ones.", "§6 C10", "No axioms."),
+ "C11": claim("Theorems: Disassemble accepts iff Decode accepts with the same error; the hex column concatenated is the input; reading the instruction lines back (independent listing reader) yields exactly the delivered calls with their operand values. Correspondence: listing text parsed back and compared line by line (~20k streams).", "§6 C11", "No axioms. Text rendering (fmt, Color.String) trusted."),
+ "C12": claim("Theorems over the reals for the one polymorphic definition of the fitting formulas: meet lies inside, slice covers, aspect ratio kept, one dimension equal, slack split by the alignment fractions; its float32 instance is compared bit-for-bit with ivg.go (~23k cases incl. extreme magnitudes).", "§6 C12", "Axioms: the standard library's real-number axioms (ClassicalDedekindReals.sig_forall_dec, FunctionalExtensionality.functional_extensionality_dep). Float rounding error not bounded by a theorem."),
+ "C13": claim("Theorems: Reset carries the metadata's viewBox and sanitised palette, defaults for absent chunks, explicit palette entries valid / others untouched, accepted viewBoxes are valid, chunk framing (lines = bytes consumed), metadata-only decoding agrees with Decode. Correspondence ~58k metadata sections.", "§6 C13", "No axioms."),
+ "C14": claim("Theorems: options are a left fold over the suggested palette, an index override changes exactly one entry, the palette reaching Reset is that fold sanitised (invalid entries become opaque black, all entries valid), valid premultiplied colours are never gradients. Correspondence: option lists incl. NRGBA/RGBA64/Gray16/Alpha16 colours into a recorder and a Renderer.", "§6 C14", "No axioms. color.RGBAModel.Convert taken from Go."),
+ "C18": claim("PARTIAL. Theorems: over the write-footprint table regenerated from /repo (go/types), no function writes or aliases a package-level variable or stores through an input slice / palette parameter; any schedule of independent step machines gives each machine its solo result. Plus a -race run of 16 goroutines over shared inputs compared with serial results. The Go memory model and footprint completeness are not proved.", "§6 C18", "No axioms. Race detector covers executions run, not all interleavings."),
 }
 props = [json.loads(l)["id"] for l in open(os.path.join(V, "properties.jsonl"))]
 hooks = subprocess.run(["git", "-C", "/repo", "log", "--format=%H %s"], capture_output=True, text=True).stdout.splitlines()
@@ -39,6 +49,6 @@ for p in props:
             "technique": TECH,
         })
     else:
-        m["not_applicable"].append({"property_id": p, "reason": "check not built yet (work in progress; will be claimed once its check is green)"})
+        m["not_applicable"].append({"property_id": p, "reason": "correspondence check built and green (./check %s); not claimed yet because its theorems are still being written" % p})
 json.dump(m, open(os.path.join(V, "MANIFEST.json"), "w"), indent=1)
 print("claimed:", sorted(CLAIMS))
